@@ -442,6 +442,7 @@ def main(argv=None):
         functions_under_contract=sorted(set(functions)),
         callee_contracts_used=sorted(used_contracts), inlined=sorted(inlined),
         by_backend=by_backend, solver_wall_s=round(solver_secs, 3), paths=paths,
+        feasibility_unknown=sum(r.get('unknown_feasible', 0) for r in results),
         assert_modes=sorted({r['mode'] for r in results}),
         undecided=und_notes, unknown=[o['name'] for _, o in unknowns][:20],
         known_findings=known_lines, bounded=bounded,
